@@ -13,7 +13,10 @@ import (
 
 	"cosmossdk.io/math"
 	sdk "github.com/cosmos/cosmos-sdk/types"
+	banktypes "github.com/cosmos/cosmos-sdk/x/bank/types"
 	ammtypes "github.com/elys-network/elys/x/amm/types"
+	burnertypes "github.com/elys-network/elys/x/burner/types"
+	epochstypes "github.com/elys-network/elys/x/epochs/types"
 	perptypes "github.com/elys-network/elys/x/perpetual/types"
 )
 
@@ -162,5 +165,27 @@ func init() {
 		sc.Tx("amm.exit", lp, J{"pool": pool.Id, "shareIn": hit.String(), "outDenom": "uusdc", "note": "sized to pay exactly the pool's real uusdc balance " + real.String()},
 			&ammtypes.MsgExitPool{Sender: lp.Addr.String(), PoolId: pool.Id, MinAmountsOut: sdk.Coins{}, ShareAmountIn: hit, TokenOutDenom: "uusdc"})
 		sc.Empty(5 * time.Second)
+	}
+}
+
+func init() {
+	// C15: the burner's epoch hook burns ANY denom that has bank metadata and a balance at the zero address.
+	scenarios["c15-burner-external"] = func(sc *Scn) {
+		w := sc.w
+		u := w.Accts[1]
+		w.Seed(func(ctx sdk.Context) {
+			// governance configures the burner to a real epoch (the default genesis value "epoch_identifier" names none)
+			bp := w.App.BurnerKeeper.GetParams(ctx)
+			bp.EpochIdentifier = epochstypes.FiveMinutesEpochID
+			w.App.BurnerKeeper.SetParams(ctx, &bp)
+			w.App.BankKeeper.SetDenomMetaData(ctx, banktypes.Metadata{Base: "uusdc", Display: "usdc", Name: "usdc", Symbol: "USDC",
+				DenomUnits: []*banktypes.DenomUnit{{Denom: "uusdc", Exponent: 0}, {Denom: "usdc", Exponent: 6}}})
+		})
+		zero := burnertypes.GetZeroAddress()
+		sc.Tx("bank.send", u, J{"to": zero.String(), "coin": []string{"uusdc", "400"}},
+			banktypes.NewMsgSend(u.Addr, zero, sdk.NewCoins(sdk.NewCoin("uusdc", math.NewInt(400)))))
+		for i := 0; i < 4; i++ {
+			sc.Empty(13 * time.Hour)
+		}
 	}
 }
